@@ -14,6 +14,7 @@ THEOREMS = [NS + t for t in [
     "C11_lib1_dependent_rows_of_live_tracks",
     "C11_lib1_failed_call_changes_nothing",
     "C11_lib1_raw_check_rejects_known_damage",
+    "C11_lib1_clean_after_every_history_partial",
     "C11_lib1_stored_blobs_decode",
     "C11_lib1_stored_blobs_decode_reachable",
 ]]
